@@ -159,6 +159,7 @@ def _point(env, name, grid, geom, spread=4):
 
 def scenario_points(env, cfg):
     _prepare(env)
+    env.nonlinear("obligations")  # (mod/floor of products of symbols: decided much faster by a fresh solver)
     grid, geom = _grid(env, cfg["grid"])
     na = grid.num_axes
     shape = grid.shape
@@ -195,6 +196,19 @@ def scenario_points(env, cfg):
                 env.prove(f"normalize(reflect={reflect}):axis{a}-is-a-mirror-image", O.lor(O.is_int(d1), O.is_int(d2)))
         if reflect or all(grid.periodic):
             env.prove(f"normalize(reflect={reflect}):result-contained", bool(grid.contains_point(np.array(q, copy=True), coords="grid")) if not env.sym else _contains(env, grid, q))
+        # a batch of points gives, row by row, the results of the single points
+        q_other = _point(env, f"b{int(reflect)}", grid, geom) if not reflect else p[::-1].copy() if na > 1 else p + sizes[0] / 4
+        if reflect and na > 1:
+            # (a second point made of the first one's coordinates, rescaled to the other axes' sizes)
+            q_other = np.array([geom["x0"][a] + (p[(a + 1) % na] - geom["x0"][(a + 1) % na]) * (sizes[a] / sizes[(a + 1) % na]) for a in range(na)], dtype=object if env.sym else float)
+        batch = np.array([list(np.atleast_1d(p)), list(np.atleast_1d(q_other))], dtype=object if env.sym else float)
+        if na == 1:
+            batch = batch.reshape(2, 1)
+        qb = grid.normalize_point(np.array(batch, copy=True), reflect=reflect)
+        single = [np.atleast_1d(grid.normalize_point(np.array(batch[k], copy=True), reflect=reflect)) for k in range(2)]
+        env.prove(f"normalize(reflect={reflect}):batch-shape", tuple(np.shape(qb)) == (2, na))
+        if tuple(np.shape(qb)) == (2, na):
+            env.close(f"normalize(reflect={reflect}):batch=row-wise-single-points", [qb[k][a] for k in range(2) for a in range(na)], [single[k][a] for k in range(2) for a in range(na)], scale=SC)
         # integer-typed input (python ints, integer ndarray): same result as for the same point given as floats,
         # and the caller's array is not modified
         ivals = [3, -2, 5][:na]
